@@ -3,8 +3,9 @@
 
   seed_eval.py import <pid> <k> [<name>]   verify /tmp/seed/<pid>/<k> (demo passes on a clean scratch
                                            worktree, fails with the patch) and copy it to /verif/seeded/<name>/
-  seed_eval.py run [<name> ...]            apply each kept patch to /repo, run the claimed quick checks
-                                           (no evidence written), undo, and print/record which checks fire
+  seed_eval.py run [<name> ...]            apply each kept patch to a scratch copy of /repo's HEAD sources, run the claimed quick
+                                           checks on it with --root (no evidence written, /repo untouched) and print/record
+                                           which checks fire
 """
 
 from __future__ import annotations
@@ -88,42 +89,53 @@ def claimed() -> list[str]:
     return [c["property_id"] for c in m["checks"]]
 
 
+def _eval_seed(name: str, props: list[str]) -> tuple[str, dict]:
+    """One seed: a scratch copy of /repo's HEAD sources + the patch, every claimed quick check with --root (nothing under /repo is touched)."""
+    d = os.path.join(SEEDED, name)
+    meta = json.load(open(os.path.join(d, "meta.json")))
+    tmp = tempfile.mkdtemp(prefix="seedrun-", dir="/tmp")
+    try:
+        ar = subprocess.run("git -C /repo archive HEAD guppylang-internals/src guppylang/src | tar -x -C " + tmp, shell=True, capture_output=True, text=True)
+        a = sh(["patch", "-p1", "-s", "-f", "--no-backup-if-mismatch", "-i", os.path.join(d, "patch.diff")], cwd=tmp)
+        if ar.returncode or a.returncode:
+            return name, {"error": "patch does not apply: " + (a.stdout + a.stderr).strip()[:200]}
+        fired = {}
+        procs = {p: subprocess.Popen([PY, "-m", "gsa.check", p, "--tier", "quick", "--no-evidence", "--root", tmp], cwd=VERIF,
+                                     stdout=subprocess.PIPE, stderr=subprocess.STDOUT, text=True) for p in props}
+        for p, pr in procs.items():
+            out, _ = pr.communicate()
+            if pr.returncode != 0:
+                lines = [l for l in out.splitlines() if l.startswith(("VIOLATION", "  rule", "  instance", "ANALYSIS-ERROR"))]
+                fired[p] = {"rc": pr.returncode, "report": lines[:9]}
+    finally:
+        shutil.rmtree(tmp, ignore_errors=True)
+    own = meta["property"]
+    return name, {"property": own, "caught_by_own_check": own in fired and fired[own]["rc"] == 1, "fired": fired}
+
+
 def cmd_run(names: list[str]) -> int:
+    from concurrent.futures import ThreadPoolExecutor
     names = names or sorted(n for n in os.listdir(SEEDED) if os.path.isdir(os.path.join(SEEDED, n)))
-    st = sh(["git", "-C", "/repo", "status", "--porcelain"]).stdout.strip()
-    if st:
-        print("/repo is dirty; refusing")
-        return 2
     props = claimed()
     results = {}
-    for name in names:
-        d = os.path.join(SEEDED, name)
-        meta = json.load(open(os.path.join(d, "meta.json")))
-        a = sh(["git", "-C", "/repo", "apply", os.path.join(d, "patch.diff")])
-        if a.returncode:
-            results[name] = {"error": "patch does not apply: " + a.stderr.strip()[:200]}
-            print(name, results[name])
-            continue
-        try:
-            fired = {}
-            procs = {p: subprocess.Popen([PY, "-m", "gsa.check", p, "--tier", "quick", "--no-evidence"], cwd=VERIF,
-                                         stdout=subprocess.PIPE, stderr=subprocess.STDOUT, text=True) for p in props}
-            for p, pr in procs.items():
-                out, _ = pr.communicate()
-                if pr.returncode != 0:
-                    lines = [l for l in out.splitlines() if l.startswith(("VIOLATION", "  rule", "  instance", "ANALYSIS-ERROR"))]
-                    fired[p] = {"rc": pr.returncode, "report": lines[:9]}
-        finally:
-            sh(["git", "-C", "/repo", "checkout", "--", "."])
-        own = meta["property"]
-        results[name] = {"property": own, "caught_by_own_check": own in fired and fired[own]["rc"] == 1,
-                         "fired": fired}
-        tag = "CAUGHT" if results[name]["caught_by_own_check"] else ("caught-by-other" if any(v["rc"] == 1 for v in fired.values()) else "MISSED")
-        print(f"{name:14s} {tag:16s} fired={ {p: v['rc'] for p, v in fired.items()} }")
-        for p, v in fired.items():
-            for l in v["report"][:3]:
-                print("      ", p, l)
-    json.dump(results, open(os.path.join(VERIF, "seeded", "RESULTS.json"), "w"), indent=1)
+    with ThreadPoolExecutor(max_workers=3) as ex:
+        for name, r in ex.map(lambda n: _eval_seed(n, props), names):
+            results[name] = r
+            if "error" in r:
+                print(name, r)
+                continue
+            fired = r["fired"]
+            tag = "CAUGHT" if r["caught_by_own_check"] else ("caught-by-other" if any(v["rc"] == 1 for v in fired.values()) else "MISSED")
+            print(f"{name:14s} {tag:16s} fired={ {p: v['rc'] for p, v in fired.items()} }", flush=True)
+            for p, v in fired.items():
+                for l in v["report"][:3]:
+                    print("      ", p, l)
+    if len(results) >= len([n for n in os.listdir(SEEDED) if os.path.isdir(os.path.join(SEEDED, n))]):
+        json.dump(results, open(os.path.join(VERIF, "seeded", "RESULTS.json"), "w"), indent=1)
+    else:
+        old = json.load(open(os.path.join(VERIF, "seeded", "RESULTS.json")))
+        old.update(results)
+        json.dump(old, open(os.path.join(VERIF, "seeded", "RESULTS.json"), "w"), indent=1)
     return 0
 
 
